@@ -149,6 +149,9 @@ type MetricScrape struct {
 	OK          bool
 	Err         string
 	Vals        map[string]float64 // "name{labels}" -> value
+	// Overlap: the scrape was started in the background and is meant to straddle a close of the stream: it must end (not
+	// crash, not fail); what it reports is not compared
+	Overlap bool `json:"overlap,omitempty"`
 }
 
 // Read is one scrape of GET /states/offset.
@@ -474,6 +477,23 @@ func RunSession(spec *SessSpec) *Trace {
 				return prevHook(r)
 			}
 			return nil
+		}
+	}
+	seqnoHold := new(int32)
+	for _, st := range spec.Steps {
+		if st.Op == "seqnohold" {
+			// while switched on, the node answers sequence-number queries that many ms late
+			prevHook := env.Sim.Hook
+			env.Sim.Hook = func(r *cbsim.Req) *cbsim.Action {
+				if ms := atomic.LoadInt32(seqnoHold); r.Op == cbsim.OpGetAllVBSeqnos && ms > 0 {
+					return &cbsim.Action{Delay: time.Duration(ms) * time.Millisecond, Async: true}
+				}
+				if prevHook != nil {
+					return prevHook(r)
+				}
+				return nil
+			}
+			break
 		}
 	}
 	seqnoFail := new(int32)
@@ -1224,6 +1244,17 @@ func RunSession(spec *SessSpec) *Trace {
 			hx.WaitFor(8*time.Second, func() bool { return env.Log.Count("sim.hold") >= st.N })
 		case "metrics":
 			s.readMetrics()
+		case "seqnohold": // sequence-number queries are answered Ms late from now on (0: at once again)
+			atomic.StoreInt32(seqnoHold, int32(st.Ms))
+		case "metricsbg": // a scrape in the background ("waitbg" joins), meant to straddle a close of the stream
+			s.bgWG.Add(1)
+			go func() {
+				defer s.bgWG.Done()
+				m := s.readMetrics()
+				s.tr.readMu.Lock()
+				m.Overlap = true
+				s.tr.readMu.Unlock()
+			}()
 		case "waitstop": // wait (bounded) for the client to stop on its own
 			full.WaitStartReturn(time.Duration(st.Ms) * time.Millisecond)
 		case "read":
